@@ -314,7 +314,7 @@ func readSections(r io.Reader, d io.Writer, fh *pe.FileHeader, hvals *peHeaderVa
 			hvals.sizeOfHdr = p
 		}
 		// Adjust any sections that are not properly aligned, except for the last one, as it might be truncated
-		if i < len(sections)-1 {
+		if i < len(sections)-1 && hvals.fileAlign != 0 {
 			sections[i].SizeOfRawData = align32(section.SizeOfRawData, hvals.fileAlign)
 		}
 	}
